@@ -761,6 +761,9 @@ pid_t __wrap_getpid(void)
 }
 
 /* the parent side of fork(): the child is a scripted virtual process */
+int mt_fork_fail_at;
+static int n_forks;
+
 pid_t __wrap_fork(void)
 {
 	int i, pid;
@@ -775,6 +778,19 @@ pid_t __wrap_fork(void)
 	for (i = n_atfork - 1; i >= 0; i--)
 		if (af_prepare[i] != NULL)
 			af_prepare[i]();
+	if (mt_fork_fail_at > 0 && ++n_forks == mt_fork_fail_at) {
+		/* scenario option Xforkfail=<k>: the k-th fork() fails with EAGAIN (no child exists); like the C library, the
+		   prepare and parent handlers have run */
+		for (i = 0; i < n_atfork; i++)
+			if (af_parent[i] != NULL)
+				af_parent[i]();
+		vk_trace("Fx");
+		if (th[mt_self()].sigmask != mask0)
+			vk_trace("X fork: the calling thread's signal mask changed across a failed fork() (%llx -> %llx)",
+				 (unsigned long long)mask0, (unsigned long long)th[mt_self()].sigmask);
+		errno = EAGAIN;
+		return -1;
+	}
 	pid = next_pid++;
 	child[nchild].pid = pid;
 	child[nchild].reaped = 0;
